@@ -22,7 +22,13 @@ CONSTANTS Configs,     \* set of [ps, D, sch, rs]: pool-level source, system def
                        \*   (socket.getdefaulttimeout: NONE or ms), scheme, request-level sources
           Durations,   \* connect durations (ms) the environment may choose
           Gap,         \* idle time between two requests (ms)
-          Dev          \* named deviations of the MODEL (always {} except in sensitivity runs)
+          Dev          \* named deviations of the MODEL (always {} except in sensitivity runs, where
+                       \*   stage 1 must REJECT the deviating model): "noclone" (requests share the pool's
+                       \*   Timeout object), "maxconnect" (max for min), "ignoreelapsed" (read timeout does
+                       \*   not subtract the connect time), "nozerocheck" (zero budget still waits),
+                       \*   "negativeread" (no clamp at 0), "mergepool" (request timeout merged with the
+                       \*   pool's instead of replacing it), "noreapply" (getresponse keeps the socket's
+                       \*   connect-stage timeout)
 
 \* ---- value codes (anything > -900000 is a number of milliseconds) ----
 UNSET      == -900001
@@ -191,6 +197,21 @@ TraceVerdict(tr) ==
                           ReqClause(tr, i) # "ok" /\ \A j \in 1..(i - 1) : ReqClause(tr, j) = "ok"
               IN <<i, ReqClause(tr, i)>>
          ELSE <<Len(tr.reqs) + 1, "ok">>
+
+\* What a recorded run exercises, decided by the RULES and the environment (never by what the code
+\* did with it): <<invalid source, zero read budget, read reduced by elapsed time, connect timed out,
+\* connection reused, request-level timeout>> as 0/1.  Used to reject vacuous validation.
+TraceCovers(tr) ==
+    LET ps == tr.cfg.ps  D == tr.cfg.D  R == tr.reqs
+        Some(P(_)) == IF \E i \in 1..Len(R) : P(R[i]) THEN 1 ELSE 0
+        Inv(x)  == ~SrcValid(x.src)
+        RR(x)   == RuleRead(EffCfg(ps, x.src), Elapsed(x), D)
+        Zero(x) == SrcValid(x.src) /\ x.sent /\ RR(x) = 0
+        Red(x)  == SrcValid(x.src) /\ x.sent /\ RR(x) # RuleRead(EffCfg(ps, x.src), 0, D)
+        CTo(x)  == x.cmode = "timeout"
+        Reu(x)  == x.sent /\ x.dial = NODIAL
+        Lvl(x)  == SrcValid(x.src) /\ x.src.kind # "omit"
+    IN <<IF ~SrcValid(ps) THEN 1 ELSE Some(Inv), Some(Zero), Some(Red), Some(CTo), Some(Reu), Some(Lvl)>>
 
 -----------------------------------------------------------------------------
 (* MODEL: what urllib3 does, step by step                                     *)
